@@ -331,9 +331,7 @@ fn v(clause: &str, detail: String, node: Addr, t: u64) -> Viol {
 }
 
 fn per_addr_events(n: &Node) -> Vec<(u64, Ev)> {
-    let mut v = n.events.clone();
-    v.sort_by_key(|(_, e)| e.addr());
-    v
+    canon_events(n)
 }
 
 pub fn run_case(c: &Case) -> Outcome {
